@@ -22,6 +22,16 @@ Mirrors `spec_classes/methods/core.py`:
   `__post_init__`, overridden parent constructors;
 * re-construction `type(x)(**{a: x.a for init-enabled a with a value})` THROUGH that constructor
   (`reconstruct`), with the attribute-wise specification `rcFields`/`specFields` it is proved to refine;
+* an instance's OWN state (`__dict__`: one entry per attribute, `missing` = none) and what `getattr` shows for it
+  (`showS`): the entry, else what the class shows (`dflt`); for an attribute backed by a `spec_property` of the same
+  name (`AttrInfo.prop`: cache / overridable flags and the getter — a constant or another attribute of the instance)
+  the entry when there is one and the property honours it (an assigned override or the memoised result —
+  `spec_property.__get__`), else the getter's result; `DeepCopyMethod.deepcopy` copies ENTRIES (`dcFields` on the
+  stored state, `copyShows`), the constructor stores entries (`initFields`, `storedSpec`) and `construct` is what
+  `getattr` shows for them;
+* `==` between an instance that refers to itself (`selfRef` = the nearest enclosing instance: `x.a = x`, `[x]`,
+  `{"k": x}`) and a finite value (`cEq`, by structural recursion on the finite operand, either operand order;
+  `pyEqC`);
 * `ReprMethod.repr` — the attributes with `repr=True` in metadata order, each child rendered as `<self>`,
   `<bound method f of self>`, `<bound method f of …>`, a compact nested instance `Cls(key=…, ...)`, `MISSING`
   or a plain value.
@@ -58,6 +68,18 @@ inductive KVs
   | cons (k : Val) (v : Val) (r : KVs)
 end
 
+/-- What the getter of a `spec_property` that backs an attribute returns: a constant, or another (plain) attribute
+of the instance (`return self.<attribute j>`). -/
+inductive Getter
+  | const (v : Val)
+  | sameAs (j : Nat)
+
+/-- `spec_property(cache=…, overridable=…)` backing an attribute of the same name. -/
+structure PropInfo where
+  cache : Bool
+  overridable : Bool
+  getter : Getter
+
 structure AttrInfo where
   name : String
   compare : Bool
@@ -67,6 +89,9 @@ structure AttrInfo where
   dflt : Val            -- what a fresh instance shows for the attribute when nothing is passed (`missing` = nothing);
                         -- for an init-enabled attribute this is `Attr.lookup_default_value(type(self))`
   owner : Nat := 0      -- `Attr.owner`: id of the spec class that declared (or re-annotated) the attribute
+  prop : Option PropInfo := none   -- the attribute is backed by a `spec_property` (then `dflt` is `missing`: the
+                        -- default is masked, `lookup_default_value` answers MISSING; `init` additionally says that the
+                        -- property accepts an assigned value)
 
 structure ClassInfo where
   name : String
@@ -274,6 +299,49 @@ def viewFields : List AttrInfo → Vals → Vals
   | a :: as, cur =>
     .cons (if (hdV cur).isMissing then a.dflt else hdV cur) (viewFields as (tlV cur))
 
+/-! ### an instance's own state (`__dict__`) and what `getattr` shows for it -/
+
+def nthVal : Vals → Nat → Val
+  | .nil, _ => .missing
+  | .cons v _, 0 => v
+  | .cons _ r, n + 1 => nthVal r n
+
+/-- `getattr` of a plain attribute `j` of a stored state: the `__dict__` entry, else what the class shows. -/
+def plainAt (as : List AttrInfo) (st : Vals) (j : Nat) : Val :=
+  match as[j]? with
+  | none => .missing
+  | some a => if (nthVal st j).isMissing then a.dflt else nthVal st j
+
+/-- `fget(instance)`. -/
+def getterValue (as : List AttrInfo) (st : Vals) : Getter → Val
+  | .const v => v
+  | .sameAs j => plainAt as st j
+
+/-- The property honours an entry in `__dict__` (`spec_property.__get__`: `(overridable or cache) and name in __dict__`). -/
+def AttrInfo.storable (a : AttrInfo) : Bool :=
+  match a.prop with
+  | none => true
+  | some p => p.overridable || p.cache
+
+/-- `getattr(x, a, MISSING)` for one attribute of the stored state `st` (entry `sv` of the attribute itself):
+a plain attribute shows its entry, else what the class shows; a property-backed one shows its entry (an assigned
+override or the memoised result) when there is one and the property honours it, else what the getter returns. -/
+def shownAttr (as : List AttrInfo) (st : Vals) (a : AttrInfo) (sv : Val) : Val :=
+  match a.prop with
+  | none => if sv.isMissing then a.dflt else sv
+  | some p => if (p.overridable || p.cache) && !sv.isMissing then sv else getterValue as st p.getter
+
+def showFrom (as0 : List AttrInfo) (st0 : Vals) : List AttrInfo → Vals → Vals
+  | [], _ => .nil
+  | a :: as, st => .cons (shownAttr as0 st0 a (hdV st)) (showFrom as0 st0 as (tlV st))
+
+/-- What `getattr` shows, attribute by attribute, for the stored state `st` (for tables without property-backed
+attributes this is `viewFields`). -/
+def showS (as : List AttrInfo) (st : Vals) : Vals := showFrom as st as st
+
+/-- `copy.deepcopy(x)` on the stored state (entry by entry: `dcFields`), as `getattr` then shows the copy. -/
+def copyShows (T : Table) (c : Nat) (st : Vals) : Vals := showS (T.attrs c) (dcFields (T.attrs c) st)
+
 /-- `InitMethod.init` for an instance of class `c` (metadata owner `m = metaOf T c`; the attribute specs and
 defaults are those seen by `c`): parents' constructors base-most first, then the own attributes. -/
 def initFields (T : Table) (c : Nat) (kw : Vals) : Vals :=
@@ -282,7 +350,7 @@ def initFields (T : Table) (c : Nat) (kw : Vals) : Vals :=
   initOwn m true as kw (initParents (specParents T m) as kw (allMissing as))
 
 /-- `type(x)(**kw)` as `getattr` then shows it, attribute by attribute. -/
-def construct (T : Table) (c : Nat) (kw : Vals) : Vals := viewFields (T.attrs c) (initFields T c kw)
+def construct (T : Table) (c : Nat) (kw : Vals) : Vals := showS (T.attrs c) (initFields T c kw)
 
 /-- Every init-enabled attribute is owned by the metadata owner or by one of its spec ancestors (so that
 exactly the constructors that are run assign it). -/
@@ -294,9 +362,17 @@ whatever it is and whichever class of the chain owns the attribute; otherwise th
 def shown (a : AttrInfo) (kv : Val) : Val :=
   if a.init then (if kv.isMissing then a.dflt else protect a kv) else a.dflt
 
-def specFields : List AttrInfo → Vals → Vals
+/-- SPEC of what the constructor stores, attribute by attribute: the passed value (copied unless `do_not_copy`),
+else the default; nothing for attributes that are not init-enabled. -/
+def storedSlot (a : AttrInfo) (kv : Val) : Val :=
+  if a.init then (if kv.isMissing then a.dflt else protect a kv) else .missing
+
+def storedSpec : List AttrInfo → Vals → Vals
   | [], _ => .nil
-  | a :: as, kw => .cons (shown a (hdV kw)) (specFields as (tlV kw))
+  | a :: as, kw => .cons (storedSlot a (hdV kw)) (storedSpec as (tlV kw))
+
+/-- SPEC of what the new instance shows (for a plain attribute: `shown a kv`, theorem `specFields_plain`). -/
+def specFields (as : List AttrInfo) (kw : Vals) : Vals := showS as (storedSpec as kw)
 
 /-! ### re-construction from own attribute values -/
 
@@ -305,14 +381,16 @@ def origId : Nat := 999
 
 /-- `{a: getattr(x, a) for init-enabled a that has a value}` (positional; `missing` = not passed). A method
 bound to `x` itself is, for the new instance, a method bound to another object. -/
+def ownValue (a : AttrInfo) (v : Val) : Val :=
+  if a.init then (match v with
+    | .bound none f => .bound (some origId) f
+    | v => v)
+  else .missing
+
 def ownValues : List AttrInfo → Vals → Vals
   | [], _ => .nil
   | _ :: as, .nil => .cons .missing (ownValues as .nil)
-  | a :: as, .cons v r =>
-    .cons (if a.init then (match v with
-        | .bound none f => .bound (some origId) f
-        | v => v)
-      else .missing) (ownValues as r)
+  | a :: as, .cons v r => .cons (ownValue a v) (ownValues as r)
 
 /-- SPEC of re-construction (what the theorems about `==` are proved on; `reconstruct_refines`). -/
 def rcFields (as : List AttrInfo) (fs : Vals) : Vals := specFields as (ownValues as fs)
@@ -323,12 +401,14 @@ def reconstruct (T : Table) : Val → Val
   | v => v
 
 /-- Re-construction can restore the instance: every compared attribute is either passed to the constructor
-(init-enabled and holding a value) or already shows what a fresh instance shows. -/
+(init-enabled and holding a value; a property-backed one must honour the stored value) or is a plain attribute that
+already shows what a fresh instance shows. -/
 def reconstructible (T : Table) : List AttrInfo → Vals → Bool
   | [], _ => true
   | _ :: _, .nil => false
   | a :: as, .cons v r =>
-    (!a.compare || (a.init && !v.isMissing) || attrEq T a.dflt v) && reconstructible T as r
+    (!a.compare || (a.init && !v.isMissing && a.storable) || (a.prop.isNone && attrEq T a.dflt v))
+      && reconstructible T as r
 
 /-! ### repr -/
 
@@ -337,11 +417,6 @@ inductive Kind
   | self | boundSelf (fn : Nat) | boundOther (fn : Nat) | compact (cls : Nat) (keyMissing : Option Bool)
   | missing | value
   deriving DecidableEq, Repr
-
-def nthVal : Vals → Nat → Val
-  | .nil, _ => .missing
-  | .cons v _, 0 => v
-  | .cons _ r, n + 1 => nthVal r n
 
 def kindOf (T : Table) : Val → Kind
   | .selfRef => .self
@@ -409,6 +484,105 @@ def okFields : Vals → Bool
   | .nil => true
   | .cons v r => okVal v && okFields r
 end
+
+/-! ### `==` when ONE operand refers back to itself
+
+`x.a = x` (or `[x]`, `{"k": x}`) is written `selfRef` inside the fields of `x`: the nearest enclosing instance.
+Python's `==` between such an `x` and a FINITE value terminates: every step descends into the finite operand. So
+the comparison is defined by structural recursion on the finite operand `w`; `v` is the corresponding value on the
+cyclic side, `self` the instance that `selfRef` inside `v` denotes. `flip = false`: Python evaluates `v == w`
+(`EqMethod.eq` runs with `self` on the cyclic side); `flip = true`: `w == v`. (`EqMethod.eq` treats IDENTICAL values
+as equal before calling `!=`; a value of the cyclic operand is never identical to one of a finite tree.) -/
+
+/-- What a value met on the cyclic side denotes. -/
+def resolve (self v : Val) : Val :=
+  match v with
+  | .selfRef => self
+  | v => v
+
+mutual
+def cEq (T : Table) (flip : Bool) (self v w : Val) : Bool :=
+  match w with
+  | .list ys => (match v with | .list xs => cVals T flip self xs ys | _ => false)
+  | .dict ys => (match v with | .dict xs => cKVs T flip self xs ys | _ => false)
+  | .set ys => (match v with | .set xs => cVals T flip self xs ys | _ => false)
+  | .inst c2 f2 =>
+    (match resolve self v with
+     | .inst c1 f1 =>
+       if flip then     -- `w == x`: CPython tries the reflected `x.__eq__(w)` first when type(x) is a proper subclass
+         (if isProperSub T c1 c2 then isSub T c2 c1 && cFields T true (.inst c1 f1) (T.attrs c1) f1 f2
+          else isSub T c1 c2 && cFields T true (.inst c1 f1) (T.attrs c2) f1 f2)
+       else             -- `x == w`
+         (if isProperSub T c2 c1 then isSub T c1 c2 && cFields T false (.inst c1 f1) (T.attrs c2) f1 f2
+          else isSub T c2 c1 && cFields T false (.inst c1 f1) (T.attrs c1) f1 f2)
+     | _ => false)
+  | w => if flip then vEq T w v else vEq T v w       -- scalars, bound methods, functions, …: no recursion
+termination_by structural w
+def cVals (T : Table) (flip : Bool) (self : Val) (xs ys : Vals) : Bool :=
+  match xs, ys with
+  | .nil, .nil => true
+  | .cons v r, .cons w s => cEq T flip self v w && cVals T flip self r s
+  | _, _ => false
+termination_by structural ys
+def cKVs (T : Table) (flip : Bool) (self : Val) (xs ys : KVs) : Bool :=
+  match xs, ys with
+  | .nil, .nil => true
+  | .cons k v r, .cons l w s =>
+    (if flip then vEq T l k else vEq T k l) && cEq T flip self v w && cKVs T flip self r s
+  | _, _ => false
+termination_by structural ys
+/-- The attribute loop of `EqMethod.eq` with the fields `xs` of the cyclic operand and `ys` of the finite one. -/
+def cFields (T : Table) (flip : Bool) (self : Val) (as : List AttrInfo) (xs ys : Vals) : Bool :=
+  match as, xs, ys with
+  | [], _, _ => true
+  | a :: as, .cons v r, .cons w s =>
+    (!a.compare ||
+      (match v, w with
+       | .bound _ f, .bound _ g => if flip then g == f else f == g
+       | _, _ => cEq T flip self v w)) && cFields T flip self as r s
+  -- (field lists shorter than the attribute list do not occur for well-formed instances: as `fieldsEq`)
+  | a :: as, .cons v r, .nil => if flip then true else fieldsEq T (a :: as) (.cons v r) .nil
+  | a :: as, .nil, ys => if flip then fieldsEq T (a :: as) ys .nil else true
+termination_by structural ys
+end
+
+mutual
+/-- No `selfRef` anywhere: a finite tree. -/
+def closed : Val → Bool
+  | .list xs => closedVals xs
+  | .dict kvs => closedKVs kvs
+  | .set xs => closedVals xs
+  | .inst _ fs => closedVals fs
+  | .selfRef => false
+  | _ => true
+def closedVals : Vals → Bool
+  | .nil => true
+  | .cons v r => closed v && closedVals r
+def closedKVs : KVs → Bool
+  | .nil => true
+  | .cons k v r => closed k && closed v && closedKVs r
+end
+
+mutual
+/-- The value is, or holds in a list / set / as a dict value, the enclosing instance itself. -/
+def reaches : Val → Bool
+  | .selfRef => true
+  | .list xs => reachesVals xs
+  | .set xs => reachesVals xs
+  | .dict kvs => reachesKVs kvs
+  | _ => false
+def reachesVals : Vals → Bool
+  | .nil => false
+  | .cons v r => reaches v || reachesVals r
+def reachesKVs : KVs → Bool
+  | .nil => false
+  | .cons _ v r => reaches v || reachesKVs r
+end
+
+/-- `x == y` as the driver evaluates it: through `cEq` with the operand that refers to itself on the cyclic side
+(`pyEqC = pyEq` on finite trees: `pyEqC_closed`). Two operands that BOTH refer to themselves are outside. -/
+def pyEqC (T : Table) (x y : Val) : Bool :=
+  if !closed y && closed x then cEq T true .none y x else cEq T false .none x y
 
 /-- Parents are defined before their subclasses (hence `issubclass` is antisymmetric). -/
 def wfTable (T : Table) : Bool :=
